@@ -130,3 +130,12 @@ func ExploreShared(p *prog.Program) {
 	fmt.Println("LONG-LIVED:", ll)
 	fmt.Println("PER-REQUEST:", pr)
 }
+
+// ExploreUnexaminedErrors lists calls whose error result is never compared with nil, returned, stored or handed to a
+// non-formatting function, while another result of the call is used.
+func ExploreUnexaminedErrors(p *prog.Program) {
+	c := &Ctx{P: p, R: oblig.New("X", "quick", 0)}
+	for _, s := range c.unexaminedErrors(p.ModFns) {
+		fmt.Printf("UNEXAMINED %s in %s  %s\n", calleeText(s.Call), prog.Name(s.Fn), p.InstrPos(s.Call))
+	}
+}
